@@ -72,6 +72,14 @@ Theorem C04_fixed_F04c_override :
 Proof. exact fixed_F04c_override. Qed.
 Print Assumptions C04_fixed_F04c_override.
 
+(* the loader, as modelled: EVERY operation of a path item carries, for every path-level parameter, a parameter
+   with the same name and location (inherited, or overridden by an operation-level declaration); together with
+   C04_partial: a supplied path-level argument reaches the wire in every operation of the item *)
+Theorem C04_path_level_inherited : forall it o, In o (item_ops it) ->
+  forall x, In x (pi_params it) -> exists y, In y (o_params o) /\ same_key y x = true.
+Proof. exact item_inherits. Qed.
+Print Assumptions C04_path_level_inherited.
+
 Theorem C04_guard_nonvacuous :
   (well_typed (mn_of tbl_ok) op_ok args_ok = true /\ guard (mn_of tbl_ok) op_ok args_ok = true)
   /\ (well_typed (mn_of tbl_ok_multi) op_ok_multi args_ok_multi = true
